@@ -16,6 +16,7 @@ type obj struct {
 type Mutex struct {
 	locked bool
 	o      obj
+	rvc    rclock
 }
 
 // Lock blocks until the mutex is free.
@@ -24,6 +25,7 @@ func (m *Mutex) Lock() {
 	t := s.cur
 	s.op("lock", func() bool { return !m.locked }, func() {
 		m.locked = true
+		s.raceAcquire(t, m.rvc)
 		s.hbEvent(t, []*obj{&m.o}, 1)
 	})
 }
@@ -38,14 +40,18 @@ func (m *Mutex) Unlock() {
 			return
 		}
 		m.locked = false
+		if RaceOn {
+			m.rvc = m.rvc.join(s.raceRelease(t))
+		}
 		s.hbEvent(t, []*obj{&m.o}, 2)
 	})
 }
 
 // WaitGroup replaces sync.WaitGroup.
 type WaitGroup struct {
-	n int
-	o obj
+	n   int
+	o   obj
+	rvc rclock
 }
 
 // Add adds delta.
@@ -54,6 +60,9 @@ func (w *WaitGroup) Add(delta int) {
 	t := s.cur
 	s.op("wg.add", alwaysEnabled, func() {
 		w.n += delta
+		if RaceOn && delta < 0 {
+			w.rvc = w.rvc.join(s.raceRelease(t))
+		}
 		if w.n < 0 {
 			t.panicS = "sync: negative WaitGroup counter"
 		}
@@ -68,7 +77,10 @@ func (w *WaitGroup) Done() { w.Add(-1) }
 func (w *WaitGroup) Wait() {
 	s := S
 	t := s.cur
-	s.op("wg.wait", func() bool { return w.n == 0 }, func() { s.hbEvent(t, []*obj{&w.o}, 4) })
+	s.op("wg.wait", func() bool { return w.n == 0 }, func() {
+		s.raceAcquire(t, w.rvc)
+		s.hbEvent(t, []*obj{&w.o}, 4)
+	})
 }
 
 // ---- timers
@@ -147,8 +159,16 @@ func NewTimerChan(d time.Duration, periodic bool, what string) (*Chan[time.Time]
 	if periodic {
 		p = d
 	}
+	var created rclock
+	if RaceOn && S.cur != nil {
+		created = S.raceRelease(S.cur)
+	}
 	t := S.addTimer(d, p, what, func() {
 		if c.trySend(Now()) {
+			if RaceOn {
+				c.c.bufVC = append(c.c.bufVC, created)
+				c.c.nsend++
+			}
 			S.hbClockObj(&c.c.obj)
 		}
 	})
@@ -230,6 +250,9 @@ func CloseQuiet[T any](c *Chan[T]) {
 		return
 	}
 	c.c.closed = true
+	if RaceOn && S.cur != nil {
+		c.c.closeVC = S.raceRelease(S.cur)
+	}
 	S.hbClockObj(&c.c.obj)
 }
 
